@@ -97,6 +97,8 @@ type LockInfo struct {
 	Ops        []lockOp
 	opAt       map[ssa.Instruction]*lockOp
 	May, Must  map[ssa.Instruction]lset // locally held just before the instruction
+	MustX      map[ssa.Instruction]lset // must-held in exclusive (write) mode
+	EntryMustX map[*ssa.Function]lset
 	EntryMay   map[*ssa.Function]lset
 	EntryMust  map[*ssa.Function]lset
 	Acq        map[*ssa.Function]map[LockClass]int // bit0 = blocking, bit1 = try
@@ -148,7 +150,7 @@ func lockKindOf(name string) (lockKind, bool) {
 
 // BuildLocks runs E2 over all concrete module functions.
 func BuildLocks(c *Ctx) *LockInfo {
-	li := &LockInfo{c: c, opAt: map[ssa.Instruction]*lockOp{}, May: map[ssa.Instruction]lset{}, Must: map[ssa.Instruction]lset{},
+	li := &LockInfo{c: c, opAt: map[ssa.Instruction]*lockOp{}, May: map[ssa.Instruction]lset{}, Must: map[ssa.Instruction]lset{}, MustX: map[ssa.Instruction]lset{}, EntryMustX: map[*ssa.Function]lset{},
 		EntryMay: map[*ssa.Function]lset{}, EntryMust: map[*ssa.Function]lset{}, Acq: map[*ssa.Function]map[LockClass]int{},
 		Callees: map[ssa.Instruction][]*ssa.Function{}, Callers: map[*ssa.Function][]callSite{}, GoRoots: map[*ssa.Function]bool{}}
 	li.Fns = c.Concrete()
@@ -428,6 +430,7 @@ func (li *LockInfo) classify(v ssa.Value, depth int) (LockClass, bool) {
 
 type flowState struct {
 	may, must lset
+	mustX     lset
 	defMay    lset // classes with a pending deferred unlock
 }
 
@@ -436,23 +439,26 @@ func (li *LockInfo) flow(f *ssa.Function) {
 		return
 	}
 	in := map[*ssa.BasicBlock]*flowState{}
-	in[f.Blocks[0]] = &flowState{may: lset{}, must: lset{}, defMay: lset{}}
+	in[f.Blocks[0]] = &flowState{may: lset{}, must: lset{}, mustX: lset{}, defMay: lset{}}
 	work := []*ssa.BasicBlock{f.Blocks[0]}
 	iter := 0
 	for len(work) > 0 && iter < 10000 {
 		iter++
 		b := work[0]
 		work = work[1:]
-		st := &flowState{may: in[b].may.clone(), must: in[b].must.clone(), defMay: in[b].defMay.clone()}
+		st := &flowState{may: in[b].may.clone(), must: in[b].must.clone(), mustX: in[b].mustX.clone(), defMay: in[b].defMay.clone()}
 		var tryCall ssa.Value
 		var tryClass LockClass
+		tryX := false
 		for _, ins := range b.Instrs {
 			li.May[ins] = st.may.clone()
 			li.Must[ins] = st.must.clone()
+			li.MustX[ins] = st.mustX.clone()
 			if _, ok := ins.(*ssa.RunDefers); ok {
 				for k := range st.defMay {
 					delete(st.may, k)
 					delete(st.must, k)
+					delete(st.mustX, k)
 				}
 				continue
 			}
@@ -466,27 +472,32 @@ func (li *LockInfo) flow(f *ssa.Function) {
 			case op.kind == kLock || op.kind == kRLock:
 				st.may[op.class] = true
 				st.must[op.class] = true
+				if op.kind == kLock {
+					st.mustX[op.class] = true
+				}
 			case op.kind == kTryLock || op.kind == kTryRLock:
 				if v, ok := ins.(ssa.Value); ok {
 					tryCall = v
 					tryClass = op.class
+					tryX = op.kind == kTryLock
 				}
 			case !op.kind.acquire():
 				delete(st.may, op.class)
 				delete(st.must, op.class)
+				delete(st.mustX, op.class)
 			}
 		}
 		for si, s := range b.Succs {
-			out := &flowState{may: st.may.clone(), must: st.must.clone(), defMay: st.defMay.clone()}
+			out := &flowState{may: st.may.clone(), must: st.must.clone(), mustX: st.mustX.clone(), defMay: st.defMay.clone()}
 			// TryLock success edge
 			if iff, ok := b.Instrs[len(b.Instrs)-1].(*ssa.If); ok {
 				cv, positive := stripNot(iff.Cond)
-				tc, cl := tryCall, tryClass
+				tc, cl, tx := tryCall, tryClass, tryX
 				if tc == nil {
 					// the TryLock may have been evaluated in a dominating block (value reused)
 					if call, ok := cv.(*ssa.Call); ok {
 						if op := li.opAt[call]; op != nil && (op.kind == kTryLock || op.kind == kTryRLock) {
-							tc, cl = call, op.class
+							tc, cl, tx = call, op.class, op.kind == kTryLock
 						}
 					}
 				}
@@ -495,6 +506,9 @@ func (li *LockInfo) flow(f *ssa.Function) {
 					if success {
 						out.may[cl] = true
 						out.must[cl] = true
+						if tx {
+							out.mustX[cl] = true
+						}
 					}
 				}
 			}
@@ -506,9 +520,10 @@ func (li *LockInfo) flow(f *ssa.Function) {
 			}
 			nm := union(old.may, out.may)
 			nu := inter(old.must, out.must)
+			nx := inter(old.mustX, out.mustX)
 			nd := union(old.defMay, out.defMay)
-			if !sameSet(nm, old.may) || !sameSet(nu, old.must) || !sameSet(nd, old.defMay) {
-				in[s] = &flowState{may: nm, must: nu, defMay: nd}
+			if !sameSet(nm, old.may) || !sameSet(nu, old.must) || !sameSet(nx, old.mustX) || !sameSet(nd, old.defMay) {
+				in[s] = &flowState{may: nm, must: nu, mustX: nx, defMay: nd}
 				work = append(work, s)
 			}
 		}
@@ -587,8 +602,10 @@ func (li *LockInfo) contexts() {
 		li.EntryMay[f] = lset{}
 		if len(li.Callers[f]) == 0 {
 			li.EntryMust[f] = lset{}
+			li.EntryMustX[f] = lset{}
 		} else {
 			li.EntryMust[f] = all.clone()
+			li.EntryMustX[f] = all.clone()
 		}
 	}
 	for it := 0; it < 50; it++ {
@@ -599,24 +616,26 @@ func (li *LockInfo) contexts() {
 				continue
 			}
 			may := lset{}
-			var must lset
+			var must, mustX lset
 			for _, s := range cs {
-				var m, u lset
+				var m, u, x lset
 				if s.isGo {
-					m, u = lset{}, lset{}
+					m, u, x = lset{}, lset{}, lset{}
 				} else {
 					m = union(li.EntryMay[s.caller], li.May[s.in])
 					u = union(li.EntryMust[s.caller], li.Must[s.in])
+					x = union(li.EntryMustX[s.caller], li.MustX[s.in])
 				}
 				may = union(may, m)
 				if must == nil {
-					must = u
+					must, mustX = u, x
 				} else {
 					must = inter(must, u)
+					mustX = inter(mustX, x)
 				}
 			}
-			if !sameSet(may, li.EntryMay[f]) || !sameSet(must, li.EntryMust[f]) {
-				li.EntryMay[f], li.EntryMust[f] = may, must
+			if !sameSet(may, li.EntryMay[f]) || !sameSet(must, li.EntryMust[f]) || !sameSet(mustX, li.EntryMustX[f]) {
+				li.EntryMay[f], li.EntryMust[f], li.EntryMustX[f] = may, must, mustX
 				changed = true
 			}
 		}
@@ -632,6 +651,9 @@ func (li *LockInfo) HeldMay(in ssa.Instruction) lset {
 }
 func (li *LockInfo) HeldMust(in ssa.Instruction) lset {
 	return union(li.EntryMust[in.Parent()], li.Must[in])
+}
+func (li *LockInfo) HeldMustX(in ssa.Instruction) lset {
+	return union(li.EntryMustX[in.Parent()], li.MustX[in])
 }
 
 // order builds lock-order edges: held(may) -> acquired, for direct operations
